@@ -36,10 +36,11 @@ def slotOf (ti : TreeInfo) (g : Nat) : Nat := (mapCapnum (mainCfg ti) (g : Int))
 /-- the world of one attempt of the program of `t` -/
 def worldOf (ti : TreeInfo) (t : GoNode) (TPx : TP) (env : VM.Env) (se : Spec.Env)
     (hrel : EnvRel TPx (codeFromTree (mainCfg ti) t).2.sets env se) (hlen : se.n ≤ 2147483647) (k : Nat)
-    (hlenS : 4 ≤ k → se.n < 2147483647) : World :=
+    (hlenS : 4 ≤ k → se.n < 2147483647) (hid : 6 ≤ k → ∀ g, slotOf ti g = g) (hecma : 6 ≤ k → env.ecma = false) : World :=
   { X := { p := emit ti t, env := env, se := se, sl := slotOf ti },
     TPx := TPx, caps := (writerCaps ti).2, fin := (codeFromTree (mainCfg ti) t).2,
-    hrel := hrel, hstr := rfl, hnsets := rfl, hsl := fun _ => rfl, hlen := hlen, k := k, hlenS := hlenS }
+    hrel := hrel, hstr := rfl, hnsets := rfl, hsl := fun _ => rfl, hlen := hlen, k := k, hlenS := hlenS,
+    hid := hid, hecma := hecma }
 
 theorem instrAt_of_split {p : Prog} {pre post : Code} {i : Instr} (hc : p.codes = (flatten (pre ++ i :: post)).toArray)
     (hop : i.op < 1024) : InstrAt p (codeLen pre) i := by
@@ -84,9 +85,16 @@ theorem codeAt_root (ti : TreeInfo) (t : GoNode) (hok : t.ok = true) :
     simpa using this
 
 theorem inFrag_spec {k : Nat} {TPx : TP} {ti : TreeInfo} {t : GoNode} (h : InFrag k TPx ti t = true) :
-    (toPatRoot TPx false t).isSome = true ∧ tier t ≤ k ∧ ti.rtl = false ∧ mapCapnum (mainCfg ti) 0 = 0 := by
-  simp only [InFrag, Bool.and_eq_true, decide_eq_true_eq, Bool.not_eq_true', beq_iff_eq] at h
-  exact ⟨h.1.1.1, h.1.1.2, h.1.2, h.2⟩
+    (toPatRoot TPx false t).isSome = true ∧ tier t ≤ k ∧ ti.rtl = false ∧ mapCapnum (mainCfg ti) 0 = 0 ∧
+      (6 ≤ tier t → ∀ g, slotOf ti g = g) := by
+  simp only [InFrag, Bool.and_eq_true, decide_eq_true_eq, Bool.not_eq_true', beq_iff_eq, Bool.or_eq_true] at h
+  refine ⟨h.1.1.1.1, h.1.1.1.2, h.1.1.2, h.1.2, ?_⟩
+  intro h6 g
+  rcases h.2 with h2 | h2
+  · omega
+  · have hnone : (writerCaps ti).2 = none := by simpa using h2
+    have hne : ¬ ((g : Int) = -1) := by omega
+    simp [slotOf, mainCfg, hnone, mapCapnum, hne]
 
 /-- `Lazybranch|Back` on a frame whose data slot is any integer (the bottom frame after `UpdateBumpalong`): the
     interpreter stands in front of the target; the text position is that integer -/
@@ -136,15 +144,15 @@ theorem compile_correct_upto (k : Nat) (hk : k ≤ maxTier) (ti : TreeInfo) (t :
     (se : Spec.Env) (pat : Pat) (i : Nat)
     (hfrag : InFrag k TPx ti t = true) (hwf : treeWf ti t = true) (hpat : toPatRoot TPx false t = some pat)
     (hrel : EnvRel TPx (codeFromTree (mainCfg ti) t).2.sets env se) (hi : i ≤ se.n) (hlen : se.n ≤ 2147483647)
-    (hlenS : 4 ≤ k → se.n < 2147483647) :
+    (hlenS : 4 ≤ k → se.n < 2147483647) (hecma : 6 ≤ k → env.ecma = false) :
     ∃ s0 s n, VM.init (emit ti t) (i : Int) = .ok s0 ∧
       (∀ fuel, n ≤ fuel → (VM.run (emit ti t) env fuel s0).1 = .done s) ∧ Agrees ti se pat i s := by
-  obtain ⟨_, htier, _, hslot0⟩ := inFrag_spec hfrag
+  obtain ⟨_, htier, _, hslot0, hid⟩ := inFrag_spec hfrag
   obtain ⟨body, ht, hbody⟩ := toPatRoot_some hpat
   simp only [treeWf, Bool.and_eq_true] at hwf
   obtain ⟨⟨hok, hcaps⟩, hbd⟩ := hwf
   obtain ⟨hlb, hroot, hstop⟩ := codeAt_root ti t hok
-  let W := worldOf ti t TPx env se hrel hlen k hlenS
+  let W := worldOf ti t TPx env se hrel hlen (tier t) (fun h => hlenS (by omega)) hid (fun h => hecma (by omega))
   have hpr : toPat TPx false t = some (.cap 0 pat) := by
     rw [ht]; simp [toPat, hbody]
   -- slot of group 0
@@ -161,7 +169,7 @@ theorem compile_correct_upto (k : Nat) (hk : k ≤ maxTier) (ti : TreeInfo) (t :
   have he0 : Entry W.X 0 i [] [] [] s0 := ⟨rfl, hf0, rfl, rfl, rfl, capRep_init _ _⟩
   obtain ⟨s1, hr1, he1⟩ := lazybranch_leads (X := W.X) he0 hlb hroot.fetch_start
   have hwfst : St.wf se.n ⟨i, []⟩ := ⟨hi, by simp⟩
-  have hdel := node_delivers W hk t 2 ⟨[], []⟩ (.cap 0 pat) htier hpr hok hcaps hbd hroot (TabExt.refl _) i
+  have hdel := node_delivers W (show W.k ≤ maxTier from Nat.le_trans htier hk) t 2 ⟨[], []⟩ (.cap 0 pat) (Nat.le_refl _) hpr hok hcaps hbd hroot (TabExt.refl _) i
     [(0 : Int)] [] (i : Int) [] s1 hwfst (by simpa using he1)
   replace hdel : Delivers W.X (2 + size (mainCfg ti) t) [(0 : Int)] [] [] []
       (m se (.cap 0 pat) false ⟨i, []⟩) s1 := hdel
@@ -203,8 +211,8 @@ theorem compile_correct_upto (k : Nat) (hk : k ≤ maxTier) (ti : TreeInfo) (t :
 
 theorem inFrag_mono {k k' : Nat} (hk : k ≤ k') {TPx : TP} {ti : TreeInfo} {t : GoNode} (h : InFrag k TPx ti t = true) :
     InFrag k' TPx ti t = true := by
-  simp only [InFrag, Bool.and_eq_true, decide_eq_true_eq, Bool.not_eq_true', beq_iff_eq] at h ⊢
-  exact ⟨⟨⟨h.1.1.1, by omega⟩, h.1.2⟩, h.2⟩
+  simp only [InFrag, Bool.and_eq_true, decide_eq_true_eq, Bool.not_eq_true', beq_iff_eq, Bool.or_eq_true] at h ⊢
+  exact ⟨⟨⟨⟨h.1.1.1.1, by omega⟩, h.1.1.2⟩, h.1.2⟩, h.2⟩
 
 /-! ## concrete instances for the non-vacuity examples of Props/C01 -/
 
@@ -277,5 +285,18 @@ def ccT7 : GoNode :=
 def ccT8 : GoNode :=
   .capture 0 (-1) (.concat [.charloop opNotoneloop false false 10 0 maxInt32, .bare opUpdateBumpalong,
     .multi false false [97, 98]])
+
+/-- `(a)\1` -/
+def ccT9 : GoNode := .capture 0 (-1) (.concat [.capture 1 (-1) (.char opOne false false 97), .ref false false 1])
+
+/-- `(a)?(?(1)b|c)` -/
+def ccT10 : GoNode :=
+  .capture 0 (-1) (.concat [.loop false 0 1 (.capture 1 (-1) (.char opOne false false 97)),
+    .backrefcond2 1 (.char opOne false false 98) (.char opOne false false 99)])
+
+/-- `(?(?=(a))ab|c)` -/
+def ccT11 : GoNode :=
+  .capture 0 (-1) (.exprcond3 (.poslook (.capture 1 (-1) (.char opOne false false 97))) (.multi false false [97, 98])
+    (.char opOne false false 99))
 
 end RegexVerif.Compile
